@@ -216,3 +216,114 @@ Proof.
   - right. now apply populate_keys.
   - left. apply fresh_sorted; [|exact Hx]. now apply (SI_sorted _ (DI_store s HD)).
 Qed.
+
+(* ---- counting: what GC reports ------------------------------------------------------------------------------ *)
+Definition zsum {A} (f : A -> Z) (l : list A) : Z := fold_right (fun x n => f x + n) 0 l.
+
+Lemma fold_left_zsum {A} (f : A -> Z) l : forall n0, fold_left (fun n x => n + f x) l n0 = n0 + zsum f l.
+Proof. induction l as [|x t IH]; intros n0; cbn [fold_left zsum fold_right]; [lia|]. rewrite IH. unfold zsum. lia. Qed.
+
+Lemma zsum_ext_in {A} (f g : A -> Z) l : (forall x, In x l -> f x = g x) -> zsum f l = zsum g l.
+Proof.
+  induction l as [|x t IH]; intros H; cbn [zsum fold_right]; [reflexivity|].
+  rewrite (H x (or_introl eq_refl)). f_equal. apply IH. intros y Hy. apply H. now right.
+Qed.
+
+Lemma zsum_map {A B} (g : A -> B) (f : B -> Z) l : zsum f (map g l) = zsum (fun x => f (g x)) l.
+Proof. induction l as [|x t IH]; cbn [map zsum fold_right]; [reflexivity|]. f_equal. exact IH. Qed.
+
+Lemma zlen_cons {A} (x : A) l : zlen' (x :: l) = 1 + zlen' l.
+Proof. unfold zlen'. cbn [length]. lia. Qed.
+
+Lemma filter_len_split {A} (f : A -> bool) l :
+  zlen' l = zlen' (filter f l) + zlen' (filter (fun x => negb (f x)) l).
+Proof.
+  induction l as [|x t IH]; [reflexivity|]. cbn [filter]. destruct (f x); cbn [negb]; rewrite !zlen_cons; lia.
+Qed.
+
+Lemma length_partition {A} (k : A -> Z) ps : forall l,
+  NoDup ps -> (forall x, In x l -> In (k x) ps) ->
+  zlen' l = zsum (fun p => zlen' (filter (fun x => k x =? p) l)) ps.
+Proof.
+  induction ps as [|p ps' IH]; intros l Hn Hl; cbn [zsum fold_right].
+  - destruct l as [|x t]; [reflexivity|]. destruct (Hl x (or_introl eq_refl)).
+  - apply NoDup_cons_iff in Hn. destruct Hn as [Hp Hn'].
+    rewrite (filter_len_split (fun x => k x =? p) l). f_equal.
+    rewrite (IH (filter (fun x => negb (k x =? p)) l) Hn').
+    + apply zsum_ext_in. intros q Hq. f_equal. rewrite filter_filter. apply filter_ext. intros x.
+      destruct (Z.eqb_spec (k x) q) as [E|E]; [|now rewrite andb_false_r].
+      destruct (Z.eqb_spec (k x) p); [exfalso; apply Hp; congruence|reflexivity].
+    + intros x Hx. apply filter_In in Hx. destruct Hx as [Hx Hne]. apply negb_true_iff, Z.eqb_neq in Hne.
+      destruct (Hl x Hx) as [E|Hin]; [congruence|exact Hin].
+Qed.
+
+Lemma zlen_filter_zsum {A} (f : A -> bool) l : zlen' (filter f l) = zsum (fun x => if f x then 1 else 0) l.
+Proof.
+  induction l as [|x t IH]; [reflexivity|]. cbn [filter zsum fold_right]. destruct (f x); [rewrite zlen_cons|]; rewrite IH; reflexivity.
+Qed.
+
+Lemma zlen_find_rec p recs :
+  NoDup (map rp recs) ->
+  zlen' (filter (fun r => rp r =? p) recs) = match find_rec p recs with Some _ => 1 | None => 0 end.
+Proof.
+  unfold find_rec. induction recs as [|r t IH]; intros Hn; [reflexivity|]. cbn [filter find map] in *.
+  apply NoDup_cons_iff in Hn. destruct Hn as [Hr Ht]. destruct (Z.eqb_spec (rp r) p) as [E|E]; [|now apply IH].
+  rewrite zlen_cons, (IH Ht). destruct (find (fun r0 => rp r0 =? p) t) as [r'|] eqn:F; [|reflexivity].
+  exfalso. apply Hr. apply find_some in F. destruct F as [Hin Hp]. apply Z.eqb_eq in Hp. rewrite E, <- Hp. now apply in_map.
+Qed.
+
+Lemma addrs_perm a s p :
+  AInv a -> DInv s -> Rel a s -> Permutation (a_addrs a p) (map da (lents (unix (d_now s)) (d_store s) p)).
+Proof.
+  intros HA HD HR. apply NoDup_Permutation.
+  - apply nodup_addrs. apply HA.
+  - apply (lents_sorted _ _ _ (DI_store s HD)).
+  - intros x. rewrite in_a_addrs, in_map_da. pose proof (rel_kv a s p x HR) as K.
+    destruct (find_ent p x (a_ents a)) as [e|], (find_de x (lents (unix (d_now s)) (d_store s) p)) as [d|];
+      cbn [option_map] in K; try discriminate; split; intros [y Hy]; try discriminate; eauto.
+Qed.
+
+(* a book whose datastore holds only unexpired entries stores exactly the abstract book *)
+Lemma fresh_counts a s :
+  AInv a -> DInv s -> Rel a s -> (forall r, In r (d_store s) -> fresh (unix (d_now s)) r) ->
+  d_stored s = zlen' (a_ents a) /\ d_nrecs s = zlen' (a_recs a).
+Proof.
+  intros HA HD HR Hf. pose proof (DI_store s HD) as HS.
+  assert (Hl : forall r, In r (d_store s) -> lents (unix (d_now s)) (d_store s) (dp r) = daddrs r).
+  { intros r Hr. unfold lents. rewrite (in_store_find _ _ HS Hr). apply filter_id. now apply Hf. }
+  assert (Hps : forall q, In q (a_peers a) -> In q (map dp (d_store s))) by (intros q; apply (peers_sub_d a s q HR)).
+  split.
+  - unfold d_stored. rewrite fold_left_zsum, Z.add_0_l.
+    rewrite (length_partition ep (map dp (d_store s)) (a_ents a) (SI_keys _ HS)).
+    + rewrite zsum_map. apply zsum_ext_in. intros r Hr. symmetry.
+      pose proof (Permutation_length (addrs_perm a s (dp r) HA HD HR)) as PL. unfold a_addrs in PL.
+      rewrite !map_length, (Hl r Hr) in PL. unfold zlen'. now rewrite PL.
+    + intros e He. apply Hps. unfold a_peers. apply in_zdedup. now apply in_map.
+  - unfold d_nrecs. rewrite zlen_filter_zsum.
+    rewrite (length_partition rp (map dp (d_store s)) (a_recs a) (SI_keys _ HS)).
+    + rewrite zsum_map. apply zsum_ext_in. intros r Hr. rewrite (zlen_find_rec _ _ (AI_rkeys a HA)).
+      destruct HR as [_ HRp]. rewrite (proj2 (HRp (dp r))). unfold vcert. rewrite (in_store_find _ _ HS Hr).
+      pose proof (Hl r Hr) as E. unfold lents in E. rewrite (in_store_find _ _ HS Hr) in E. rewrite E.
+      destruct (daddrs r) eqn:D; [exfalso; now apply (SI_nonempty _ HS r Hr)|]. now destruct (dcert r).
+    + intros r Hr. apply Hps. apply in_a_peers. now apply (AI_recs a HA).
+Qed.
+
+Lemma dstep_gc a s : AInv a -> DInv s -> Rel a s -> dstep_ok a s OGC.
+Proof.
+  intros HA HD HR. unfold dstep_ok. cbn [d_step a_step]. destruct (gc_spec s HD) as [[HD' Hn Hv Hs] Hf].
+  assert (HR' : Rel a (d_gc s)).
+  { destruct HR as [Hna HRp]. split; [congruence|]. rewrite Hn. intros q. destruct (Hv q) as [E1 E2]. unfold prel. rewrite E1, E2. apply HRp. }
+  rewrite <- Hn in Hf. destruct (fresh_counts a (d_gc s) HA HD' HR' Hf) as [E1 E2].
+  split; [exact HA|split; [exact HD'|split; [exact HR'|split; [|intros q Hq; right; now apply Hs]]]].
+  cbn [obs_rel_d norm_obs]. now rewrite E1, E2.
+Qed.
+
+(* after GC every listed peer has a live address *)
+Lemma gc_peers a s q : AInv a -> DInv s -> Rel a s -> In q (map dp (d_store (d_gc s))) -> In q (a_peers a).
+Proof.
+  intros HA HD HR Hq. destruct (gc_spec s HD) as [[HD' Hn Hv Hs] Hf].
+  apply in_a_peers. destruct HR as [_ HRp]. apply (has_peer_rel _ _ _ _ (proj1 (HRp q))).
+  rewrite <- (proj1 (Hv q)). apply in_map_iff in Hq. destruct Hq as [r [<- Hr]].
+  unfold lents. rewrite (in_store_find _ _ (DI_store _ HD') Hr). rewrite (filter_id _ _ (Hf r Hr)).
+  apply (SI_nonempty _ (DI_store _ HD') r Hr).
+Qed.
